@@ -320,7 +320,14 @@ func ruleMergeArms(c *Ctx, r *R) {
 						if yid, isID := s.Y.(*ast.Ident); isID && countObj != nil && info.Uses[yid] == countObj && !countsDown {
 							cmpOK = true // the shared merger compares with the count its callers hand in
 						}
-						if lit, ok := s.Y.(*ast.BasicLit); ok && lit.Value == itoa(len(ins)) && !countsDown && countObj == nil {
+						// the right-hand side as a constant: a literal, or a named constant (const numIn = 2)
+						type litT struct{ Value string }
+						var lit litT
+						ok := false
+						if tv, has := info.Types[s.Y]; has && tv.Value != nil {
+							lit, ok = litT{tv.Value.ExactString()}, true
+						}
+						if ok && lit.Value == itoa(len(ins)) && !countsDown && countObj == nil {
 							cmpOK = true
 						} else if ok && lit.Value == "0" {
 							if id, isID := s.X.(*ast.Ident); isID && counterInit[info.Uses[id]] == itoa(len(ins)) {
